@@ -65,10 +65,12 @@ func parseOp(s Sx) op {
 
 // bulk operations (run-length encoding of regular insertion patterns; the driver expands them with the
 // same three-line loop):
-//   (addnodes from count step mod)      AddNode(wrap(from + i*step))                        i < count
-//   (addedges a b count sa sb mod)      AddEdge(wrap(a + i*sa), wrap(b + i*sb))             i < count
-//   (rmedges  a b count sa sb mod)      RemoveEdge(wrap(a + i*sa), wrap(b + i*sb))          i < count
-//   (reindexes from count step mod)     ReindexNode(wrap(from + i*step))                    i < count
+//
+//	(addnodes from count step mod)      AddNode(wrap(from + i*step))                        i < count
+//	(addedges a b count sa sb mod)      AddEdge(wrap(a + i*sa), wrap(b + i*sb))             i < count
+//	(rmedges  a b count sa sb mod)      RemoveEdge(wrap(a + i*sa), wrap(b + i*sb))          i < count
+//	(reindexes from count step mod)     ReindexNode(wrap(from + i*step))                    i < count
+//
 // wrap(v) = v mod `mod` when mod > 0, v otherwise.  Observation: (agg <number of true results>) for
 // addnodes / rmedges, (agg <sum of the returned in-degrees>) for addedges.
 func wrap(v, mod int) int {
